@@ -1334,3 +1334,30 @@ package iavl
 //@   ensures [at-most-one-release] calls("nodeDB).decrVersionReaders") <= 1
 //@   ensures [no-longer-holding] e.tree == nil
 //@   modifies *
+
+// ---------------------------------------------------------------- nodedb.go: version readers (C04) — the count of open exports per version
+//@ func (*nodeDB).incrVersionReaders(ndb, version)
+//@   props C04
+//@   nosafety
+//@   requires ndb != nil && ndb.versionReaders != nil && ndb.versionReaders[version] < 4294967295
+//@   ensures [one-more-reader-of-that-version] ndb.versionReaders[version] == old(ndb.versionReaders[version]) + 1
+//@   ensures [other-versions-untouched] forall(w, imp(w != version, ndb.versionReaders[w] == old(ndb.versionReaders[w])))
+//@   modifies *
+//@ func (*nodeDB).decrVersionReaders(ndb, version)
+//@   props C04
+//@   nosafety
+//@   requires ndb != nil && ndb.versionReaders != nil
+//@   ensures [one-reader-less-never-below-zero] ndb.versionReaders[version] == ite(old(ndb.versionReaders[version]) > 0, old(ndb.versionReaders[version]) - 1, 0)
+//@   ensures [other-versions-untouched] forall(w, imp(w != version, ndb.versionReaders[w] == old(ndb.versionReaders[w])))
+//@   modifies *
+
+// an export takes its hold on the exported version when it is created — exactly one, for that tree's version, and the
+// exporter keeps referring to the tree it holds
+//@ func newExporter(tree) (e, err)
+//@   props C04
+//@   nosafety
+//@   opaquecalls
+//@   callsite nodeDB).incrVersionReaders [hold-on-the-exported-version] arg0 == tree.ndb && arg1 == tree.version
+//@   ensures [one-hold-per-export] err == nil ==> calls("nodeDB).incrVersionReaders") == 1 && e != nil
+//@   ensures [no-hold-without-an-export] err != nil ==> calls("nodeDB).incrVersionReaders") == 0 && e == nil
+//@   modifies *
